@@ -19,7 +19,7 @@ THOROUGH_DEPTH = 40      # thorough tier = this many times the base thorough bud
 ROUTES = ["quaternion.slerp", "orientation.slerp", "QuaternionArray.slerp_nan", "QuaternionArray.remove_jumps", "orientation.q_correct"]
 PAIR_REGIONS = ["generic", "near", "antipodal", "orthogonal", "threshold", "sweep", "identical"]
 REGIONS = {"pair:" + r: 60 for r in PAIR_REGIONS}
-REGIONS.update({"nan:enumerated": 60, "nan:sampled": 30, "flips:enumerated": 60, "flips:sampled": 30})
+REGIONS.update({"nan:enumerated": 60, "nan:sampled": 30, "flips:enumerated": 60, "flips:sampled": 30, "flips:canonical": 20})
 PROBES = [("ahrs.common.quaternion", "slerp"), ("ahrs.common.orientation", "slerp"), ("ahrs.common.quaternion", "QuaternionArray.slerp_nan"),
           ("ahrs.common.quaternion", "QuaternionArray.remove_jumps"), ("ahrs.common.orientation", "q_correct"),
           ("ahrs.utils.core", "get_nan_intervals")]
@@ -108,9 +108,27 @@ def generate(rng, tier, shard, nshards):
         if k % nshards != shard:
             continue
         yield Case("flips", "flips:enumerated", T=traj(rng, N, gens.logu(rng, 1e-3, 0.3)), flips=np.array(bits))
+    # recordings delivered in a canonical form (every row multiplied by the sign of one of its components, usually w >= 0) while the rotation passes
+    # the point where that component changes sign: a flip pattern tied to the trajectory, with no row "looking" flipped
+    for i in range(gens.budget(40, tier, nshards)):
+        N = int(rng.integers(12, 80))
+        T = sweep(rng, N)
+        c = 0 if i % 2 == 0 else int(rng.integers(1, 4))
+        fl = np.where(T[:, c] < 0, -1.0, 1.0)
+        if fl[0] < 0:
+            T, fl = -T, fl       # (keep the first row as delivered)
+        yield Case("flips", "flips:canonical", T=T, flips=fl)
     for i in range(gens.budget(80, tier, nshards)):
         N = int(rng.integers(9, 61))
         yield Case("flips", "flips:sampled", T=traj(rng, N, gens.logu(rng, 1e-3, 0.3)), flips=np.where(rng.random(N) < rng.uniform(0.05, 0.6), -1.0, 1.0))
+
+
+def sweep(rng, n):
+    """a steady turn about a fixed axis through more than half a turn (a turn-table sweep), seen from an arbitrary fixed frame"""
+    ax = gens.axis(rng)
+    th = np.linspace(float(rng.uniform(0.05, 0.6)), float(rng.uniform(2 * np.pi - 0.6, 2 * np.pi - 0.05)), n)
+    left = gens.unit(rng) if rng.random() < 0.5 else np.array([1.0, 0, 0, 0])
+    return np.array([rq.qnormalize(rq.qmul(left, np.r_[np.cos(t / 2), ax * np.sin(t / 2)])) for t in th])
 
 
 def nontrivial(case):
